@@ -12,6 +12,7 @@ Exit codes: 0 property held on everything explored (known findings printed);
 1 violation (VIOLATION lines); 2 harness error / vacuous exploration (never a verdict).
 """
 import argparse
+import math
 import collections
 import hashlib
 import importlib
@@ -206,35 +207,62 @@ def main(argv=None):
     work = [(modname, i, c) for i, c in enumerate(chunks)]
     per_child = getattr(mod, "TASKS_PER_CHILD", 8)
     chunk_timeout = getattr(mod, "CHUNK_TIMEOUT", 1500 if a.tier == "quick" else 7200)
+    # thorough tier: chunks are started in a fixed interleaved order (golden-ratio stride, so any prefix is spread over all
+    # grammars / families) until a wall-clock budget is used up; chunks that were not started are reported as a cap
+    budget = float(os.environ.get("VERIF_BUDGET_S", "0" if a.tier == "quick" else "1500") or 0)
+    order = list(range(len(work)))
+    if a.tier == "thorough" and len(work) > 2:
+        n = len(work)
+        k = max(1, int(n * 0.6180339887))
+        while math.gcd(k, n) != 1:
+            k += 1
+        order = [(i * k) % n for i in range(n)]
     with ctx.Pool(jobs, maxtasksperchild=per_child) as pool:
-        it = pool.imap_unordered(_run_chunk, work, chunksize=1)
+        pending = {}
+        nxt = 0
         done = 0
-        while done < len(work):
-            try:
-                idx, r, err = it.next(timeout=chunk_timeout)
-            except StopIteration:
+        last_progress = time.time()
+        while pending or nxt < len(order):
+            while len(pending) < jobs and nxt < len(order) and not (budget and time.time() - t0 > budget):
+                pending[nxt] = pool.apply_async(_run_chunk, (work[order[nxt]],))
+                nxt += 1
+            if not pending:
                 break
-            except mp.TimeoutError:
-                # a worker died (e.g. killed for memory) or hangs: never wait forever
-                errors.append((-1, f"no chunk finished within {chunk_timeout}s ({done} of {len(work)} chunks done); pool terminated"))
-                pool.terminate()
-                break
-            done += 1
-            if err is not None:
-                errors.append((idx, err))
+            ready = [i for i, ar in pending.items() if ar.ready()]
+            if not ready:
+                if time.time() - last_progress > chunk_timeout:
+                    # a worker died (e.g. killed for memory) or hangs: never wait forever
+                    errors.append((-1, f"no chunk finished within {chunk_timeout}s ({done} of {len(work)} chunks done); pool terminated"))
+                    pool.terminate()
+                    break
+                time.sleep(0.05)
                 continue
-            agg.evals += r.evals
-            agg.states |= r.states
-            agg.transitions += r.transitions
-            agg.viols.extend(r.viols)
-            agg.outcomes.update(r.outcomes)
-            agg.caps.update(r.caps)
-            agg.extra.update(r.extra)
-            for k, v in r.nontrivial.items():
-                agg.nontrivial.setdefault(k, set()).update(v)
-            for s in r.samples:
-                if len(agg.samples) < 6:
-                    agg.samples.append(s)
+            last_progress = time.time()
+            for i in ready:
+                try:
+                    idx, r, err = pending.pop(i).get()
+                except Exception:  # noqa
+                    idx, r, err = order[i], None, traceback.format_exc()
+                done += 1
+                if err is not None:
+                    errors.append((idx, err))
+                    continue
+                agg.evals += r.evals
+                agg.states |= r.states
+                agg.transitions += r.transitions
+                agg.viols.extend(r.viols)
+                agg.outcomes.update(r.outcomes)
+                agg.caps.update(r.caps)
+                agg.extra.update(r.extra)
+                for k_, v in r.nontrivial.items():
+                    agg.nontrivial.setdefault(k_, set()).update(v)
+                for s_ in r.samples:
+                    if len(agg.samples) < 6:
+                        agg.samples.append(s_)
+        if nxt < len(order):
+            agg.caps[f"chunks_not_started_wallclock_budget_{int(budget)}s"] += len(order) - nxt
+            agg.extra["chunks_total"] = len(order)
+            agg.extra["chunks_run"] = nxt
 
     status = 0
     if errors:
